@@ -344,7 +344,15 @@ def scenEvDec (ks ps obs : String) : Verdict :=
           .prop "C05" "accepted a packet whose variant tag or flag byte is outside the kind's table" full
         else if p.isError || codeOf p.data != some k.code || !sizeOk k p.data.length then
           .prop "C05" "accepted a packet that is an error packet, carries another event code or has the wrong length" full
-        else .corr full
+        else
+          -- the value the implementation says it decoded: its encoding must have exactly the packet's length
+          let shown := (((obs.drop 3).toString.splitOn ") re").headD "")
+          match parseEvent shown with
+          | some e =>
+            if (encode ⟨0, 0, 0⟩ e).data.length != p.data.length then
+              .prop "C05" "accepted a packet whose length is not the length of the accepted value's encoding (only exact encodings may be accepted)" full
+            else .corr full
+          | none => .corr full
       else
         -- rejected although the model accepts
         match Spec.refDecode k p with
@@ -555,10 +563,12 @@ def announcedOf : RxSt → Nat
 /-- `rxh`: every entry is `<result>@<left>/<live>/<peak>/<plen>`, then ` base<live of a fresh receiver>` -/
 def scenRxh (link items obs : String) : Verdict :=
   let states : Option (List (String × Nat)) :=
+    -- a reported reassembly error is told apart from the other errors (`errB`)
+    let showH : Out → String := fun o => match o with | .emit (.builderErr _) => "errB" | _ => showOutShort o
     if link == "can" then (parseCanItems items).map fun s =>
-      (canPollsSt none s).map fun (o, n, st) => (showOutShort o ++ "@" ++ toString n, announcedOf st)
+      (canPollsSt none s).map fun (o, n, st) => (showH o ++ "@" ++ toString n, announcedOf st)
     else (parseByteItems items).map fun s =>
-      (byteTrace link s).map fun (o, n, st) => (showOutShort o ++ "@" ++ toString n, announcedOf st.rx)
+      (byteTrace link s).map fun (o, n, st) => (showH o ++ "@" ++ toString n, announcedOf st.rx)
   match states, obs.splitOn " base" with
   | some sts, [polls, bs] =>
     match bs.toNat? with
@@ -586,7 +596,12 @@ def scenRxh (link items obs : String) : Verdict :=
         | some (r, live, _, _) =>
           .prop "C19,C06" s!"receiver holds {live - base} bytes more than a fresh one right after delivering a packet ({r})" a
         | none =>
-          match rxOracle link items (String.intercalate "," (parsed.map (·.1))) a with
+          match parsed.find? (fun (r, live, _, _) => r.startsWith "errB@" && live > base) with
+          | some (r, live, _, _) =>
+            .prop "C19" s!"receiver holds {live - base} bytes more than a fresh one right after reporting a reassembly error ({r})" a
+          | none =>
+          let plain := fun (x : String) => x.replace "errB@" "err@"
+          match rxOracle link items (plain (String.intercalate "," (parsed.map (·.1)))) (plain a) with
           | some clause => .prop "C06" clause a
           | none => .corr a
       else
